@@ -131,9 +131,11 @@ partial def pConv (j : Json) : Except String Conv := do
       | "score" => pure (.subsetted 3 s)
       | _ => throw s!"unknown subsetter {kind}"
   | "RoundedVotes" => do
-    let k ← j.getObjValAs? Nat "decimals"
+    let ki ← j.getObjValAs? Int "decimals"
+    if ki < 0 then pure (.invalid .valueError) else
+    let k := ki.toNat
     match j.getObjValAs? String "round_method" with
-    | .ok "ROUND_HALF_UP" => pure (.rounded k)
+    | .ok "ROUND_HALF_UP" => pure (.roundedWith .halfUp k)
     | .ok "ROUND_HALF_DOWN" => pure (.roundedWith .halfDown k)
     | .ok "ROUND_HALF_EVEN" => pure (.roundedWith .halfEven k)
     | .ok "ROUND_DOWN" => pure (.roundedWith .down k)
